@@ -1,3 +1,3 @@
 package main
 
-func cmdExpand(args []string) int   { return 2 }
+func cmdExpand(args []string) int { return 2 }
